@@ -43,6 +43,13 @@ pub struct C09Case {
     /// working directory: None = tree root, Some(i) = directory of the i-th built directory entry
     pub cwd_sel: Option<u16>,
     pub extra_roots: Vec<u16>,
+    /// feed the input paths through --stdin
+    #[serde(default)]
+    pub stdin: bool,
+    /// patterns of a user-level ignore file ($XDG_CONFIG_HOME/git/ignore); only written together
+    /// with --no-ignore, where the documented outcome is unambiguous (nothing is ignored)
+    #[serde(default)]
+    pub global_ignore: Vec<u16>,
 }
 
 const NAMES: [&str; 18] = ["a", "b", "c", "ab", "a.b", "a-b", "a+b", "(a)", "ż", "A", "Ab", "v-1", "x.txt", "y.TXT", ".h", ".hid.txt", "a b", "[x]"];
@@ -105,8 +112,9 @@ fn case_strategy() -> BoxedStrategy<C09Case> {
                 (prop::bool::weighted(0.3), prop::bool::weighted(0.15), prop::bool::weighted(0.3)),
                 prop::option::weighted(0.4, 0u16..u16::MAX),
                 proptest::collection::vec(0u16..u16::MAX, 0..3),
+                (prop::bool::weighted(0.2), prop_oneof![1 => Just(vec![]), 1 => proptest::collection::vec(0u16..u16::MAX, 1..4)]),
             )
-                .prop_map(move |(tree, (depth, hidden, no_ignore, symbolic_links), (min, max), (names, paths, excludes), (ignore_case, regex, one_fs), cwd_sel, extra_roots)| C09Case {
+                .prop_map(move |(tree, (depth, hidden, no_ignore, symbolic_links), (min, max), (names, paths, excludes), (ignore_case, regex, one_fs), cwd_sel, extra_roots, (stdin, global_ignore))| C09Case {
                     tree,
                     roots,
                     depth,
@@ -126,6 +134,8 @@ fn case_strategy() -> BoxedStrategy<C09Case> {
                     one_fs,
                     cwd_sel,
                     extra_roots,
+                    stdin,
+                    global_ignore,
                 })
         })
         .boxed()
@@ -414,9 +424,26 @@ fn judge(c: &C09Case, cd: &CaseDir, built: &Built, have_other: bool) -> Verdict 
             }
         }
     }
-    args.extend(roots.iter().map(|r| r.clone().into_os_string()));
-    let run = Run::fclones(cd).args(&args).cwd(&cwd);
-    let cmdline = format!("cd {} && {}", cwd.display(), run.cmdline());
+    if c.no_ignore && !c.global_ignore.is_empty() {
+        let pats: Vec<&str> = c.global_ignore.iter().map(|i| IGNORE_PATTERNS[pick(*i, IGNORE_PATTERNS.len())]).collect();
+        let dir = cd.base.join("config").join("git");
+        let _ = std::fs::create_dir_all(&dir);
+        let _ = std::fs::write(dir.join("ignore"), format!("{}\n", pats.join("\n")));
+        sig.push("user-level-ignore-file-with-no-ignore".into());
+    }
+    let mut run = Run::fclones(cd).cwd(&cwd);
+    let cmdline;
+    if c.stdin {
+        args.push("--stdin".into());
+        let input: Vec<u8> = roots.iter().flat_map(|r| [path_bytes(r), b"\n".to_vec()].concat()).collect();
+        run = run.args(&args).stdin(input);
+        cmdline = format!("cd {} && printf '%s\\n' {} | {}", cwd.display(), roots.iter().map(|r| r.display().to_string()).collect::<Vec<_>>().join(" "), run.cmdline());
+        sig.push("roots-from-stdin".into());
+    } else {
+        args.extend(roots.iter().map(|r| r.clone().into_os_string()));
+        run = run.args(&args);
+        cmdline = format!("cd {} && {}", cwd.display(), run.cmdline());
+    }
     let out = run.run();
     sig.sort();
     sig.dedup();
@@ -499,7 +526,7 @@ pub fn check(tier: Tier) -> i32 {
     cleanup_process_scratch();
     ctx.finish(
         "exploration",
-        "proptest-generated trees (nesting 0-4, names with regex metacharacters, blanks, brackets, non-ASCII and leading dots, .gitignore/.fdignore files from a restricted grammar {name, *.ext, /anchored, dir/, !negation within one file}, hard links, relative/absolute/dangling/cyclic symlinks, a sub-tree on the other device reached through a symlink) x --depth 0-5, --hidden, --no-ignore, -L, -S, --min/--max, --name/--path/--exclude as globs or (small grammar) regexes, absolute or relative to a working directory inside the tree, -i with case-flipped patterns, --one-fs, overlapping and repeated roots. Observation: `group --rf-over 0 -f json` lists every selected file. Oracle: reference walk written from README/--help (pruning does not exist in it): exact set equality, no path twice. Non-trivial = the expected set is non-empty, differs from 'all files' and contains a file deeper than level 2 or below a directory with a metacharacter / non-ASCII name.",
+        "proptest-generated trees (nesting 0-4, names with regex metacharacters, blanks, brackets, non-ASCII and leading dots, .gitignore/.fdignore files from a restricted grammar {name, *.ext, /anchored, dir/, !negation within one file}, hard links, relative/absolute/dangling/cyclic symlinks, a sub-tree on the other device reached through a symlink) x --depth 0-5, --hidden, --no-ignore, -L, -S, --min/--max, --name/--path/--exclude as globs or (small grammar) regexes, absolute or relative to a working directory inside the tree, -i with case-flipped patterns, --one-fs, overlapping and repeated roots given as arguments or through --stdin; with --no-ignore, half of the cases also have a user-level ignore file ($XDG_CONFIG_HOME/git/ignore) that must then have no effect. Observation: `group --rf-over 0 -f json` lists every selected file. Oracle: reference walk written from README/--help (pruning does not exist in it): exact set equality, no path twice. Non-trivial = the expected set is non-empty, differs from 'all files' and contains a file deeper than level 2 or below a directory with a metacharacter / non-ASCII name.",
         &["outside the generated domain (documentation does not settle them): hidden root names, .gitignore and .fdignore in one directory, negation in a deeper ignore file overriding a parent's rule, ignore files together with -L", "regex mode uses three pattern shapes with a reference predicate each"],
     )
 }
